@@ -122,7 +122,9 @@ def make_constraint(b: Built, c):
     if cls in ("TaskStartAfter", "TaskEndBefore"):
         return getattr(ps, cls)(task=T(c["task"]), value=c["value"], kind=c["kind"], **kw)
     if cls == "TaskPrecedence":
-        return ps.TaskPrecedence(task_before=T(c["before"]), task_after=T(c["after"]),
+        before = b.cons[c["before_g"] - 1] if c.get("before_g") else T(c["before"])
+        after = b.cons[c["after_g"] - 1] if c.get("after_g") else T(c["after"])
+        return ps.TaskPrecedence(task_before=before, task_after=after,
                                  offset=c["offset"], kind=c["kind"], **kw)
     if cls in ("TasksStartSynced", "TasksEndSynced", "TasksDontOverlap"):
         return getattr(ps, cls)(task_1=T(c["t1"]), task_2=T(c["t2"]), **kw)
